@@ -34,6 +34,8 @@ type JobOpts struct {
 	Concurrent bool     `json:"concurrent"`
 	// Race: run the workers with the race-detector build of the harness
 	Race bool `json:"race"`
+	// LingerMs: pause before every scripted step (0: every third run pauses 6 ms; -1: never)
+	LingerMs int `json:"linger_ms"`
 }
 
 type Job struct {
@@ -63,6 +65,17 @@ type RunLog struct {
 	SLog  []drive.SetRec     `json:"slog,omitempty"`
 	VRes  *drive.ValueResult `json:"vres,omitempty"`
 	Crash string             `json:"crash,omitempty"`
+}
+
+func (o JobOpts) driveOptsFor(run int) drive.Options {
+	d := o.driveOpts()
+	switch {
+	case o.LingerMs > 0:
+		d.Linger = time.Duration(o.LingerMs) * time.Millisecond
+	case o.LingerMs == 0 && (int64(run)+o.Seed)%3 == 0:
+		d.Linger = 6 * time.Millisecond
+	}
+	return d
 }
 
 func (o JobOpts) driveOpts() drive.Options {
@@ -147,7 +160,7 @@ func WorkerMain(args []string) int {
 			line, _ = json.Marshal(RunLog{Run: i, Log: []drive.Rec{}, TmLog: tm})
 		} else {
 			p := job.Programs[sch.Prog]
-			log := drive.Run(i, p, sch, job.Opts.driveOpts())
+			log := drive.Run(i, p, sch, job.Opts.driveOptsFor(i))
 			line, _ = json.Marshal(RunLog{Run: i, Log: log})
 		}
 		out.Write(append(line, '\n'))
